@@ -66,6 +66,13 @@ pub fn expand_position(
         },
     )?;
 
+    // changes made during this epoch must not alter the epoch's global weight snapshot
+    let epoch_to_snapshot = helpers::get_current_epoch(deps.as_ref())?;
+    crate::execute::snapshot::take_global_weight_snapshot_if_missing(
+        deps.storage,
+        epoch_to_snapshot,
+    )?;
+
     // add the weight to the global weight and the user's weight. The weight added is the difference
     // between the weight of the expanded position and the weight the position had before, which is
     // exactly what closing the position takes away later (weights are rounded down, so the weight of
